@@ -7,7 +7,7 @@
    Gen/Lincomb.v on every run.  A store maps object identities to array
    contents; `x1 is x2` is equality of identities. *)
 From Coq Require Import ZArith Reals List Bool.
-From Verif Require Import Base.Num Base.Vec C01.Syntax Gen.Lincomb C01.Carriers C01.Model C01.Laws C01.Proofs.
+From Verif Require Import Base.Num Base.Vec C01.Syntax Gen.Lincomb C01.Carriers C01.Model C01.Laws C01.Proofs C01.ProofsPoison.
 Import ListNotations.
 
 (* T1  out = a*x1 + b*x2 entry-wise, for EVERY carrier satisfying the field laws
@@ -43,3 +43,49 @@ Theorem lincomb_nonfloating_correct :
           /\ forall j, j <> io -> s' j = s j.
 Proof. exact @lincomb_impl_nonfloating. Qed.
 Print Assumptions lincomb_nonfloating_correct.
+
+(* T1  "the previous contents of the output never influence the result", at the POISONED
+   carrier [option T] (None = NaN / uninitialised memory; every operation, including
+   multiplication by zero, is strict in None).  If the two operands hold numbers
+   (s i1 = map Some x1, s i2 = map Some x2), then in every regime, for all scalars and all
+   identities, the output holds numbers and equals the entry-wise result -- NOTHING is
+   assumed about the old contents of [out] (they may be None everywhere) unless [out] is
+   itself one of the operands.  All other buffers are unchanged. *)
+Theorem lincomb_ignores_old_out :
+  forall (T : Type) (N : Num T) (F : NumField T)
+         (r : regime) (a b : T) (i1 i2 io : nat) (s : store (option T)) (x1 x2 : list T),
+  s i1 = map Some x1 -> s i2 = map Some x2 ->
+  length x1 = length x2 -> length (s io) = length x1 ->
+  exists s', lincomb_fuel 2 (fun u => u) r
+               {| e_a := Some a; e_b := Some b; e_x1 := i1; e_x2 := i2; e_out := io |} s = Ok s'
+          /\ s' io = map Some (vlin a x1 b x2)
+          /\ forall j, j <> io -> s' j = s j.
+Proof. exact @lincomb_poison_ok. Qed.
+Print Assumptions lincomb_ignores_old_out.
+
+(* set_zero() is lincomb(0, y, 0, y, out=y).  FULL STATEMENT (refuted below):
+     forall r i s,  exists s', lincomb_fuel 2 id r {0, 0, i, i, i} s = Ok s'
+                               /\ s' i = map (fun _ => Some 0) (s i)
+   i.e. y.set_zero() yields zeros whatever y held.  It holds from THRESHOLD_SMALL entries
+   on (floating dtypes), where the tree writes out[:] = 0 ... *)
+Theorem set_zero_partial :
+  forall (T : Type) (N : Num T) (F : NumField T) (r : regime) (i : nat) (s : store (option T)),
+  r <> Direct ->
+  exists s', lincomb_fuel 2 (fun u => u) r
+               {| e_a := of_Z 0; e_b := of_Z 0; e_x1 := i; e_x2 := i; e_out := i |} s = Ok s'
+          /\ s' i = map (fun _ => Some nzero) (s i)
+          /\ forall j, j <> i -> s' j = s j.
+Proof. exact @set_zero_nondirect. Qed.
+Print Assumptions set_zero_partial.
+
+(* ... and is FALSE in the direct regime (fewer than THRESHOLD_SMALL entries, or a
+   non-floating dtype), which evaluates 0*y + 0*y: NaN / inf in y survive set_zero().
+   Recorded finding C01/set_zero-nan-survives-direct. *)
+Theorem set_zero_direct_refuted :
+  forall (T : Type) (N : Num T),
+  exists (i : nat) (s : store (option T)) (s' : store (option T)),
+    lincomb_fuel 2 (fun u => u) Direct
+      {| e_a := of_Z 0; e_b := of_Z 0; e_x1 := i; e_x2 := i; e_out := i |} s = Ok s'
+    /\ s' i <> map (fun _ => Some nzero) (s i).
+Proof. exact @set_zero_direct_counterexample. Qed.
+Print Assumptions set_zero_direct_refuted.
